@@ -92,7 +92,13 @@ func ZZAPI(props, script, varspec string) {
 		zzvrt.Assume(zzvrt.Le(zero, lim))
 	}
 
-	res, err := e.pr.Run(context.Background(), e.varsMap, e.store)
+	// "_store=<kind>": the same truth table served by a store that answers in another
+	// legitimate way (exactly what is asked, only non-zero entries, shared number objects ...)
+	var st Store = e.store
+	if kind := e.spec["_store"]; kind != "" {
+		st = zzNewStore(kind, e, AccountsMetadata{})
+	}
+	res, err := e.pr.Run(context.Background(), e.varsMap, st)
 	cls := zzErrClass(err)
 	zzvrt.Note("result=" + cls)
 	if err == nil {
